@@ -8,6 +8,8 @@ import (
 	"time"
 
 	"codeberg.org/TauCeti/mangle-go/ast"
+	"codeberg.org/TauCeti/mangle-go/engine"
+	"codeberg.org/TauCeti/mangle-go/factstore"
 
 	"verifmc/mg"
 	"verifmc/oracle"
@@ -167,6 +169,7 @@ func c04(r *rt.Run) {
 		}
 		clauses = kept
 	}
+	c04Temporal(r)
 	r.Extra["clauses_enumerated"] = len(clauses)
 	r.Extra["skipped_outside_alphabet_(transform_redefines_body_variable,_wildcard_in_aggregated_body)"] = outOfAlphabet
 	rt.ForRange(len(clauses), func(i int) {
@@ -175,8 +178,85 @@ func c04(r *rt.Run) {
 		}
 		c04Clause(r, clauses[i])
 	})
-	r.Finish("every clause H :- L1..Lk (k<=3 over 28 literals, k<=3 over a 20-literal family with function applications inside atoms / wildcards in equalities / list patterns x 6 transform tails incl. let chains, k=4 over a focused 9-literal set and over an 8-literal set with wildcards in atoms and equalities; thorough adds k=4 over 16) in every order x 5 heads x 4 transform tails, analysed alone with declared EDB predicates; accepted ones evaluated on 3 EDBs; " +
+	r.Finish("every clause H :- L1..Lk (k<=3 over 28 literals, k<=3 over a 20-literal family with function applications inside atoms / wildcards in equalities / list patterns x 6 transform tails incl. let chains, k=4 over a focused 9-literal set and over an 8-literal set with wildcards in atoms and equalities; a temporal family (10 head annotation forms x every ordered body of <=2 literals over 16 annotated atoms/operators, evaluated against a temporal store: no panic, no 'variable has no value' error); thorough adds k=4 over 16) in every order x 5 heads x 4 transform tails, analysed alone with declared EDB predicates; accepted ones evaluated on 3 EDBs; " +
 		"non-trivial = accepted clause whose reference result is non-empty on some EDB; distinct by construction")
+}
+
+// c04Temporal: temporal annotations in heads and bodies. Every head annotation form x every ordered body of <= 2
+// literals over annotated atoms (both bounds / one bound / a point / the same variable twice / other variable names),
+// operators with and without annotation, plain and negated atoms. The reference evaluator has no temporal fragment, so
+// this family decides the first half of the property only: an accepted clause must evaluate without panic and without
+// an error that says a variable (of the head annotation or elsewhere) has no value.
+func c04Temporal(r *rt.Run) {
+	decls := "Decl ta(X) temporal bound [/number].\nDecl q(A).\nDecl s(A).\n"
+	heads := []string{"h(X)", "h(X)@[S, E]", "h(X)@[S, _]", "h(X)@[_, E]", "h(X)@[S]", "h(X)@[now]", "h(X)@[S, now]", "h(X, S)", "h(X, S, E)", "h(X)@[E, S]"}
+	lits := []string{"ta(X)@[S, E]", "ta(X)@[S, _]", "ta(X)@[_, E]", "ta(X)@[S]", "ta(X)@[S, S]", "ta(X)@[S1, E1]", "ta(Y)@[S, E]", "ta(X)@[_, _]", "q(X)", "!s(X)",
+		"<-[0s, 5s] ta(X)", "<-[0s, 5s] ta(X)@[S, E]", "[-[0s, 1s] ta(X)@[S, _]", "<+[0s, 5s] ta(X)@[_, E]", "S = E", "S < E"}
+	var bodies []string
+	for i, a := range lits {
+		bodies = append(bodies, a)
+		for j, b := range lits {
+			if i != j {
+				bodies = append(bodies, a+", "+b)
+			}
+		}
+	}
+	type job struct{ head, body string }
+	var jobs []job
+	for _, h := range heads {
+		for _, b := range bodies {
+			jobs = append(jobs, job{h, b})
+		}
+	}
+	t0 := mg.EvalTime
+	rt.ForRange(len(jobs), func(i int) {
+		clause := jobs[i].head + " :- " + jobs[i].body + "."
+		w := map[string]any{"clause": clause, "family": "temporal"}
+		r.Add("states", 1)
+		r.Add("transitions", 1)
+		r.Add("temporal_clauses", 1)
+		pp := prepare(decls + clause + "\n")
+		if pp.panicV != nil {
+			r.Violate("analysis-panic", fmt.Sprintf("%v at %s", pp.panicV, rt.ShortStack(pp.stack)), w)
+			return
+		}
+		if pp.err != nil {
+			r.Add("clauses_rejected", 1)
+			return
+		}
+		r.Add("clauses_accepted", 1)
+		r.Add("temporal_clauses_accepted", 1)
+		var everr error
+		pv, st := rt.Try(func() {
+			ts := factstore.NewTemporalStore()
+			iv := func(a, b int) ast.Interval {
+				return ast.NewInterval(ast.NewTimestampBound(t0.Add(time.Duration(a)*time.Second)), ast.NewTimestampBound(t0.Add(time.Duration(b)*time.Second)))
+			}
+			ts.Add(ast.NewAtom("ta", ast.Number(1)), iv(-3, 2))
+			ts.Add(ast.NewAtom("ta", ast.Number(1)), iv(-30, -20))
+			ts.Add(ast.NewAtom("ta", ast.Number(2)), iv(-1, -1))
+			ts.Add(ast.NewAtom("ta", ast.Number(3)), ast.NewInterval(ast.NegativeInfinity(), ast.NewTimestampBound(t0)))
+			store := mg.NewStoreWithEDB("multiarray", evalGround([]string{"q(1)", "q(2)", "q(3)", "s(2)"}))
+			everr = mg.Eval(pp.pi, store, engine.WithTemporalStore(ts))
+		})
+		r.Add("evaluations", 1)
+		r.Add("traces_validated_against_impl", 1)
+		if pv != nil {
+			r.Violate("eval-panic", fmt.Sprintf("%v at %s", pv, rt.ShortStack(st)), w)
+			return
+		}
+		if everr != nil {
+			msg := everr.Error()
+			if strings.Contains(msg, "resolve") || strings.Contains(msg, "not a value") || strings.Contains(msg, "unbound") || strings.Contains(msg, "not bound") || strings.Contains(msg, "no value") {
+				r.Violate("eval-error-temporal", "accepted clause failed at evaluation because a variable has no value: "+msg, w)
+				return
+			}
+			r.Add("temporal_clauses_with_data_dependent_evaluation_error", 1)
+			r.Outcome("temporal-error: " + msg[:min(len(msg), 40)])
+			return
+		}
+		r.Add("distinct_nontrivial", 1)
+	})
 }
 
 // stripParens removes parenthesised/bracketed groups so that top-level commas can be counted.
